@@ -102,6 +102,37 @@ func (v *fnVC) call(in ssa.CallInstruction, st *State) {
 				}
 				return
 			}
+			// a function-typed free variable / parameter of this very function with an assumed (fnparam) contract
+			fvName := ""
+			switch cv := c.Value.(type) {
+			case *ssa.UnOp:
+				if f, ok := cv.X.(*ssa.FreeVar); ok {
+					fvName = f.Name()
+				}
+			case *ssa.FreeVar:
+				fvName = cv.Name()
+			case *ssa.Parameter:
+				fvName = cv.Name()
+			}
+			if fvName != "" {
+				if pct := v.w.specs.Contracts["fnparam:"+v.fn.RelString(nil)+"."+fvName]; pct != nil {
+					ci.key, ci.ct, ci.display = pct.Key, pct, "function value "+fvName
+					ci.names = nil
+					for k := 0; k < c.Signature().Params().Len(); k++ {
+						ci.names = append(ci.names, paramName(c.Signature().Params().At(k), k))
+					}
+					if len(pct.ParamNm) > 0 {
+						ci.names = pct.ParamNm
+					}
+					for _, a := range c.Args {
+						args = append(args, v.val(a))
+					}
+					if res := v.applyCall(in, ci, args, st); res != nil {
+						setResult(res)
+					}
+					return
+				}
+			}
 			// a function-typed parameter of the enclosing function with an assumed (fnparam) contract
 			rv := v.root()
 			for _, p := range rv.fn.Params {
@@ -226,6 +257,9 @@ func (v *fnVC) applyCall(in ssa.Instruction, ci calleeInfo, args []*T, st *State
 	for k, a := range args {
 		if k < len(ci.names) {
 			vars[ci.names[k]] = a
+			if strings.Contains(ci.names[k], "$") {
+				vars[strings.ReplaceAll(ci.names[k], "$", "_S_")] = a
+			}
 		}
 	}
 	mkEx := func(cur, old *State) *Ex {
